@@ -11,6 +11,7 @@ import Ww.Driver.Cook
 import Ww.Driver.Sched
 import Ww.Driver.Fault
 import Ww.Driver.C20
+import Ww.Driver.C19
 open Ww.Driver
 
 def dispatch (l : Line) : List Verdict :=
@@ -43,6 +44,7 @@ def dispatch (l : Line) : List Verdict :=
   | "faultdry" => [Verdict.ok]
   | "start20" => handleStart20 l
   | "logscan" => handleLogScan l
+  | "shutdown19" => handleShutdown19 l
   | k => [Verdict.bad s!"unknown kind {k}"]
 
 partial def loop (h : IO.FS.Stream) (out : IO.FS.Stream) (i : Nat) : IO Unit := do
